@@ -22,7 +22,7 @@ from .. import common, tokclass
 from ..common import ToolError
 from ..extract import base
 
-NEEDS = ["driver"]
+NEEDS = ["driver", "cli"]
 FIELDS = {
     "plain": ["alpha", "beta_gamma", "delta"], "kw_swift": ["default", "case", "protocol"], "kw_py": ["from", "def", "pass"],
     "kw_both": ["class", "import", "is"], "kw_type": ["alpha", "beta_gamma", "delta"], "dashed": ["alpha", "beta_gamma", "delta"],
@@ -412,10 +412,70 @@ def run(chk):
         chk.judged((lang, "snapshot:" + snap))
     chk.extra["snapshot_files_judged"] = len(names)
     chk.extra["sibling_cases_judged_for_attribution"] = len(need)
+    after_earlier_output(chk, work)
+
+
+RERUN_LATER = ("/// The account\n#[typeshare]\npub struct Account {\n    pub id: u32,\n    pub name: Option<String>,\n}\n"
+               '#[typeshare]\n#[serde(tag = "type", content = "content")]\npub enum Event {\n    Opened(u32),\n    Closed { at: String },\n    Idle,\n}\n')
+RERUN_EARLIER = {
+    "longer": RERUN_LATER + "".join(f"/// More {i}\n#[typeshare]\npub struct Extra{i} {{\n    pub first_field_{i}: Vec<Option<String>>,\n    pub second: HashMap<String, u32>,\n}}\n" for i in range(4)),
+    "shorter": "#[typeshare]\npub struct Account {\n    pub id: u32,\n}\n",
+    "other_kinds": "#[typeshare]\npub type Names = Vec<String>;\n#[typeshare]\npub enum Colour {\n    Red,\n    Green,\n}\n#[typeshare]\npub struct Zed {\n    pub z: Names,\n    pub c: Colour,\n}\n",
+}
+
+
+def after_earlier_output(chk, work):
+    """MC_C10_rerun: the file the real binary leaves at a path that held the output of an earlier run is well formed"""
+    from .. import cli
+    res = common.run_tlc("MC_C10_rerun", cfg="MC_C10_rerun", workers=2, timeout=300)
+    chk.add_tlc("MC_C10_rerun", res)
+    if not res.replays:
+        raise ToolError("MC_C10_rerun produced no cases")
+    args_for = {"typescript": [], "kotlin": ["--java-package", "com.x"], "swift": [], "scala": ["--scala-package", "com.x"], "go": ["--go-package", "p"], "python": []}
+    events, meta, pyfiles = [], [], []
+    for k, c in enumerate(res.replays):
+        if c["lang"] == "go" and c["mode"] == "multi":
+            continue          # Go has no folder mode
+        d = os.path.join(work, f"rr{k}")
+        out = os.path.join(d, "out")
+        os.makedirs(out)
+        dest = ["-o", os.path.join(out, "out." + common.EXT[c["lang"]])] if c["mode"] == "single" else ["-d", out]
+        ok = True
+        for step, text in (("earlier", RERUN_EARLIER[c["earlier"]]), ("later", RERUN_LATER)):
+            cli.make_tree(os.path.join(d, step), {"cratex/src/lib.rs": text})
+            r = cli.run_cli(["-l", c["lang"]] + args_for[c["lang"]] + dest + [os.path.join(d, step)], timeout=20)
+            if r["exit"] in ("panic", "timeout", "signal"):
+                ok = False          # C07
+                break
+            if r["exit"] != "ok":
+                chk.refused(f"{c['lang']}/rerun", f"{c['lang']} {c['mode']}: the {step} run of a C10 rerun case failed: {r['stderr'][-200:].strip()}", {"rerun": c})
+                ok = False
+                break
+        if not ok:
+            continue
+        for fn in sorted(os.listdir(out)):
+            text = open(os.path.join(out, fn)).read()
+            if c["lang"] == "python":
+                pyfiles.append((os.path.join(out, fn), len(events)))
+            events.append(event_for(c["lang"], text))
+            meta.append((c, fn, text))
+    fill_python(chk, events, pyfiles)
+    for i in sorted(validate(chk, events)):
+        c, fn, text = meta[i]
+        kind = classify(events[i])
+        chk.mismatch(f"C10/{c['lang']}/rerun/{c['mode']}/earlier={c['earlier']}/{kind}", f"{c['lang']} {c['mode']}: {fn}, generated into a location that held the output of an earlier run "
+                     f"({c['earlier']}), is not well-formed ({kind}) {events[i].get('cpython_error', '') or events[i].get('lex_error', '')}", {"rerun": c, "lang": c["lang"]}, "Trace_C10!Accepts", text[:1500])
+    for c, fn, _ in meta:
+        chk.judged((c["lang"], "rerun", c["mode"], c["earlier"], fn))
+    chk.extra["rerun_files_judged"] = len(meta)
 
 
 def replay(chk, rec):
     c = rec["case"]
+    if "rerun" in c:
+        after_earlier_output(chk, common.scratch("c10r"))
+        chk.mismatches = {k: v for k, v in chk.mismatches.items() if k == rec["signature"]}
+        return
     if "snapshot" in c["case"]:
         run(chk)
         chk.mismatches = {k: v for k, v in chk.mismatches.items() if k == rec["signature"]}
